@@ -53,7 +53,7 @@ ASSUMPTIONS = [
     "internal errors (TypeError/AttributeError/KeyError...) of a derivation on an in-scope dataset count as 'value "
     "differs from the walk'; DatasetError/ValueError/NotImplementedError are documented refusals",
     "times are non-decreasing inside an individual except at reset records (EVID 3/4) where time may restart at 0",
-    "ADDL/II layouts contain no reset records (NONMEM cancels pending additional doses at a reset; pharmpy documents nothing)",
+    "ADDL/II layouts with reset records (layout addlreset) are examined for expand_additional_doses only: the additional doses of an occasion stay in it, records chronological inside each occasion, occasions in their order (NONMEM cancels pending additional doses at a reset; pharmpy documents nothing for the other derivations)",
     "in-place modification of the input model's dataset (add_admid/add_cmt) is counted as an outcome, it belongs to C06",
     "the model is a fixed generic 2-compartment model (DEPOT admid 1, CENTRAL admid 2); NONMEM code generation is not involved",
 ]
@@ -86,6 +86,7 @@ PLANS = {
         ("admid", 3, 1, PAIRS_LITE, 0, False),
         ("addl", 4, 2, PAIRS_FULL, 0, False),
         ("addl2", 3, 0, PAIRS_LITE, 0, False),
+        ("addlreset", 4, 2, PAIRS_LITE, 0, True),
         ("ss", 4, 1, PAIRS_LITE, 0, False),
         ("rate", 3, 0, PAIRS_LITE, 0, False),
         ("decoy", 3, 0, PAIRS_LITE, 0, False),
@@ -101,6 +102,7 @@ PLANS = {
         ("admid", 4, 3, PAIRS_LITE, 0, False),
         ("addl", 5, 4, PAIRS_FULL, 2, False),
         ("addl2", 4, 3, PAIRS_LITE, 0, False),
+        ("addlreset", 5, 3, PAIRS_LITE, 0, True),
         ("ss", 5, 3, PAIRS_FULL, 0, False),
         ("rate", 4, 2, PAIRS_LITE, 0, False),
         ("decoy", 4, 2, PAIRS_LITE, 0, False),
@@ -367,6 +369,10 @@ def check_dataset(layout, ids, indivs, only=None):
     def fresh():
         # add_admid/add_cmt write into the frame of the input model: give every mutating call its own
         return build_model(layout, recs)
+
+    if layout == "addlreset":
+        # what the other derivations should do with additional doses that are pending at a reset is not defined by the property
+        only = "expand_additional_doses"
 
     def want(name):
         return only is None or name.split(":")[0] == only
@@ -660,10 +666,17 @@ def check_expand(iss, name, layout, recs, cols, newdf, flag):
         iss.count(f"{name}:individuals_reordered")
         if len(idseq) != len(ref):
             iss.add(f"{name}:individuals_interleaved", f"{name}: records of individuals interleaved: {idseq}")
-    for i, ts in times.items():
-        if any(b < a - 1e-9 for a, b in zip(ts, ts[1:])):
-            iss.add(f"{name}:chronology", f"{name}: times of individual {i} not chronological: {ts}")
-            break
+    if "EVID" in cols:
+        # with reset records: the result is the walk itself (chronological inside each occasion, occasions in their order)
+        want_seq = [(recs[k]["RN"], t) for _, ev in ref for (t, k, nn) in ev]
+        got_seq = [(float(r["RN"]), float(r["TIME"])) for r in rows]
+        if idseq == [i for i, _ in ref] and any(not (a[0] == b[0] and feq(a[1], b[1])) for a, b in zip(want_seq, got_seq)):
+            iss.add(f"{name}:chronology", f"{name}: records (source record, time) in order {got_seq}, the walk per occasion gives {want_seq}")
+    else:
+        for i, ts in times.items():
+            if any(b < a - 1e-9 for a, b in zip(ts, ts[1:])):
+                iss.add(f"{name}:chronology", f"{name}: times of individual {i} not chronological: {ts}")
+                break
     if list(newdf.index) != list(range(len(newdf))):
         iss.count(f"{name}:index_not_range")
 
